@@ -12,10 +12,10 @@ from .purify import purify
 
 OBLIGATIONS = []      # filled before the pool is forked
 
-RLIMIT_1 = int(os.environ.get("PYVC_RLIMIT1", "40000000"))
-RLIMIT_2 = int(os.environ.get("PYVC_RLIMIT2", "120000000"))
+RLIMIT_1 = int(os.environ.get("PYVC_RLIMIT1", "12000000"))
+RLIMIT_2 = int(os.environ.get("PYVC_RLIMIT2", "36000000"))
 WALL_MS = int(os.environ.get("PYVC_WALL_MS", "240000"))
-CVC5_S = int(os.environ.get("PYVC_CVC5_S", "60"))
+CVC5_S = int(os.environ.get("PYVC_CVC5_S", "30"))
 
 
 def _mk_solver(rlimit, seed=None):
@@ -82,7 +82,7 @@ def solve_one(idx):
                     else:
                         res["reason"] = (res["reason"] or "") + f"; cvc5: {out}"
                         # 4. other seeds, larger budget
-                        for seed in (7, 23):
+                        for seed in (7,):
                             s3 = _mk_solver(RLIMIT_2, seed)
                             s3.add(*q)
                             r3 = s3.check()
